@@ -3,7 +3,7 @@
 use crate::host::{resolve_in, seed_this_thread_hash_keys, Fs, HostState, Shared};
 use crate::model::*;
 use crate::rng::{fnv64, fnv64_more};
-use crate::session::{self, fresh_process, FreshResult, STACK_BYTES};
+use crate::session::{self, fresh_process, FreshResult};
 use serde_json::json;
 use std::cell::RefCell;
 use std::collections::{BTreeMap, BTreeSet};
@@ -53,7 +53,7 @@ pub fn execute(run: &Run, opts: &ExecOpts) -> Outcome {
     let run = run.clone();
     let opts = opts.clone();
     std::thread::Builder::new()
-        .stack_size(STACK_BYTES)
+        .stack_size(session::STACK_BYTES)
         .spawn(move || {
             if run.property == "C10" && !run.variants.is_empty() {
                 execute_c10(&run, &opts)
